@@ -3815,6 +3815,11 @@ static mz_bool mz_zip_reader_read_central_dir(mz_zip_archive * pZip, mz_uint fla
 			filename_size = MZ_READ_LE16(p + MZ_ZIP_CDH_FILENAME_LEN_OFS);
 			ext_data_size = MZ_READ_LE16(p + MZ_ZIP_CDH_EXTRA_LEN_OFS);
 
+			if (MZ_ZIP_CENTRAL_DIR_HEADER_SIZE + filename_size + ext_data_size > n) {
+				/* The name and extra data must lie inside the central directory that was read */
+				return mz_zip_set_error(pZip, MZ_ZIP_INVALID_HEADER_OR_CORRUPTED);
+			}
+
 			if ((!pZip->m_pState->m_zip64_has_extended_info_fields) &&
 					(ext_data_size) &&
 					(MZ_MAX(MZ_MAX(comp_size, decomp_size), local_header_ofs) == MZ_UINT32_MAX)) {
